@@ -1,6 +1,7 @@
 package main
 
 import (
+	"golang.org/x/tools/go/ssa"
 	"encoding/json"
 	"flag"
 	"fmt"
@@ -173,6 +174,24 @@ func run(rc *runConfig) int {
 			names = append(names, n)
 		}
 	}
+	// The proof of a property rests on the contracts of everything its functions call: a caller is checked
+	// against the callee's contract, so the callee's body has to satisfy that contract (all of it, whatever
+	// property the clause was written for). The functions of the property are therefore closed under
+	// "calls a function under contract" (through inlined, uncontracted helpers), and every obligation of
+	// every function in the closure counts for the property.
+	tagged := map[string]bool{}
+	for _, n := range names {
+		tagged[n] = true
+	}
+	viaCallee := map[string]bool{}
+	if rc.funcOnly == "" && rc.prop != "" && os.Getenv("LIMEVC_NO_CLOSURE") == "" {
+		for _, n := range calleeClosure(prog, names) {
+			if !tagged[n] {
+				viaCallee[n] = true
+				names = append(names, n)
+			}
+		}
+	}
 	sort.Strings(names)
 	var obls, covers []*Obligation
 	var execs []*Exec
@@ -200,7 +219,7 @@ func run(rc *runConfig) int {
 			// what was generated before the contract error is still valid and is still reported
 			execs = append(execs, x)
 			for _, o := range x.obls {
-				if rc.prop == "" || hasProp(o.Props, rc.prop) {
+				if rc.prop == "" || hasProp(o.Props, rc.prop) || viaCallee[n] || tagged[n] {
 					obls = append(obls, o)
 				}
 			}
@@ -208,7 +227,7 @@ func run(rc *runConfig) int {
 		}
 		execs = append(execs, x)
 		for _, o := range x.obls {
-			if rc.prop == "" || hasProp(o.Props, rc.prop) {
+			if rc.prop == "" || hasProp(o.Props, rc.prop) || viaCallee[n] || tagged[n] {
 				obls = append(obls, o)
 			}
 		}
@@ -226,7 +245,12 @@ func run(rc *runConfig) int {
 	thorough := rc.tier == "thorough"
 	solveAll(obls, smtDir, rc.timeout, rc.seed, thorough, rc.workers)
 	solveAll(covers, filepath.Join(smtDir, "covers"), rc.timeout, rc.seed, false, rc.workers)
-	rep := &Report{rc: rc, prog: prog, obls: obls, covers: covers, execs: execs, names: names, loadS: loadS, start: start, undecided: undecided}
+	var via []string
+	for n := range viaCallee {
+		via = append(via, n)
+	}
+	sort.Strings(via)
+	rep := &Report{viaCallee: via, rc: rc, prog: prog, obls: obls, covers: covers, execs: execs, names: names, loadS: loadS, start: start, undecided: undecided}
 	return rep.finish()
 }
 
@@ -247,6 +271,56 @@ func contractObligation(fn string, fs *FuncSpec, prop, why string) *Obligation {
 	}
 	o.Res = &SolveResult{Status: "unknown", Solver: "engine", Output: why}
 	return o
+}
+
+// calleeClosure returns the functions under (non-trusted) contract that are reachable from roots through
+// static calls, function literals, go and defer statements, looking through uncontracted in-package helpers
+// (those are verified in place, as part of their callers).
+func calleeClosure(prog *Program, roots []string) []string {
+	seen := map[*ssa.Function]bool{}
+	in := map[string]bool{}
+	var out []string
+	var visit func(f *ssa.Function)
+	visit = func(f *ssa.Function) {
+		if f == nil || seen[f] || f.Blocks == nil {
+			return
+		}
+		seen[f] = true
+		for _, b := range f.Blocks {
+			for _, ins := range b.Instrs {
+				for _, op := range ins.Operands(nil) {
+					g, ok := (*op).(*ssa.Function)
+					if !ok || g == nil {
+						continue
+					}
+					if g.Pkg != prog.spkg && !(g.Pkg == nil && g.Parent() != nil) {
+						if g.Synthetic == "" || g.Pkg != nil {
+							continue
+						}
+					}
+					name := prog.relName(g)
+					if fs := prog.spec.Funcs[name]; fs != nil && prog.funcs[name] != nil {
+						if !in[name] {
+							in[name] = true
+							if !fs.Trusted {
+								out = append(out, name)
+								visit(g)
+							}
+						}
+						continue
+					}
+					visit(g) // literal, wrapper or uncontracted helper: part of its caller
+				}
+			}
+		}
+	}
+	for _, n := range roots {
+		in[n] = true
+	}
+	for _, n := range roots {
+		visit(prog.funcs[n])
+	}
+	return out
 }
 
 func clauseHasProp(fs *FuncSpec, p string) bool {
